@@ -25,7 +25,7 @@ RULE = ('Hypothesis draws a pool of 2..3 (T, v) pairs whose schema objects are s
         'what they yield alone; (5) the history run concurrently on 4 threads gives every thread the sequential results (sampled '
         'schedules); (6) with debug logging switched on every outcome is the same. Non-trivial = histories of >= 3 calls on one '
         'schema / interleavings that switch inside an element; distinct = distinct (pool, history).')
-RULE += (' ' + "Also: ANY in the pool types, a call with the caller's own tagMap=, module-level codec tables snapshotted, empty schemaless containers of two results compared for sharing, DEFAULT members of one result read and emptied before another result is looked at. Also: a bulk run - eight threads each encoding and decoding some nine hundred distinct small values of their own (integers, bit strings, OIDs) at once, every result compared with the sequential one; half of the threaded histories run with debug logging on; the debug arm snapshots value and guiding type around every call; results of native.decode (DEFAULT members missing from the mapping) are mutated like those of the BER decoders. One pool in three holds its first type twice: as drawn, and with character string leaves built with the documented encoding= option (one class in use with two codecs; expected encodings come from the reference with the leaf's codec).")
+RULE += (' ' + "Also: ANY in the pool types, a call with the caller's own tagMap=, module-level codec tables snapshotted, empty schemaless containers of two results compared for sharing, DEFAULT members of one result read and emptied before another result is looked at. Also: a bulk run - eight threads each encoding and decoding some nine hundred distinct small values of their own (integers, bit strings, OIDs) at once, every result compared with the sequential one; half of the threaded histories run with debug logging on; the debug arm snapshots value and guiding type around every call; results of native.decode (DEFAULT members missing from the mapping) are mutated like those of the BER decoders. One pool in three holds its first type twice: as drawn, and with string leaves built with the documented encoding= option (one class in use with two codecs; expected encodings come from the reference with the leaf's codec).")
 ASSUMPTIONS = ['thread schedules are sampled (sys.setswitchinterval(1e-6)), not controlled: this sub-check can expose a race, it '
                'cannot show absence']
 SHARDS = {'quick': (16, 120), 'thorough': (16, 2500)}
@@ -652,9 +652,7 @@ def run_shard(desc, seed, tier, col):
         # one class is in use with two codecs (no draw is spent: a pure function of the pool)
         key = ir.jdump(ir.to_jsonable(pool))
         if zlib.crc32(key.encode()) % 3 == 0:
-            # (character strings only: an OCTET STRING whose octets are not text in its codec makes the encoder's debug
-            # logging raise - '%s' % value - a defect recorded in DESIGN 5.3 and kept out of the pool by construction)
-            T2, n_opt = ir.with_enc_opt(pool[0][0], key, octet_strings=False)
+            T2, n_opt = ir.with_enc_opt(pool[0][0], key)
             if n_opt:
                 pool.append([T2, pool[0][1]])
         hist = [[d.pick(CALLS + ['dec-tagmap', 'dec-BER', 'enc-native']), d.int(0, len(pool) - 1), d.int(0, 5)] for _ in range(d.int(3, 10))]
